@@ -143,19 +143,20 @@ RV_<G_<NFT_, TC_, Manual, TRO_ HFSM2_IF_UTILITY_THEORY(, TR_, TU_, TG_), NSL_ HF
 
 		_apex.deepRequestChange(control, {TransitionType::CHANGE, INVALID_SHORT});
 
-		if (HFSM2_CHECKED(applyRequests(control, transitions, count))) {
-			for (Short i = 0; i < count; ++i)
-				_core.previousTransitions.emplace(transitions[i]);
+		// the recorded requests may add up to the default activation: the machine is activated all the same
+		applyRequests(control, transitions, count);
 
-			_apex.deepEnter(control);
+		for (Short i = 0; i < count; ++i)
+			_core.previousTransitions.emplace(transitions[i]);
 
-			_core.registry.clearRequests();
+		_apex.deepEnter(control);
 
-			HFSM2_IF_ASSERT(HFSM2_IF_PLANS(_core.planData.verifyPlans()));
-			HFSM2_IF_STRUCTURE_REPORT(udpateActivity());
+		_core.registry.clearRequests();
 
-			return true;
-		}
+		HFSM2_IF_ASSERT(HFSM2_IF_PLANS(_core.planData.verifyPlans()));
+		HFSM2_IF_STRUCTURE_REPORT(udpateActivity());
+
+		return true;
 	}
 
 	return false;
